@@ -10,7 +10,9 @@ package c17
 
 import (
 	"bytes"
+	"encoding/json"
 	"fmt"
+	"math/big"
 	"sort"
 	"strings"
 	"testing"
@@ -40,7 +42,7 @@ var c17Denoms = [3]string{"uband", "uatom", "ufoo"} // ufoo is never part of the
 type amt3 [3]int64
 
 type c17Op struct {
-	K     string `json:"k"`               // create|deposit|withdraw|activate|deactivate|trigger|fund|update|reimport|sendmod|minparams|end
+	K     string `json:"k"`               // create|deposit|withdraw|activate|deactivate|trigger|fund|update|reimport|sendmod|minparams|badimport|end
 	U     int    `json:"u,omitempty"`     // signer (create/deposit/withdraw/fund) or offset from the creator (activate/deactivate/trigger/update)
 	T     int    `json:"t,omitempty"`     // late-bound tunnel: id = 1 + T mod (number of tunnels)
 	Ghost bool   `json:"ghost,omitempty"` // use the first id that does not exist
@@ -141,7 +143,7 @@ func genC17(rt *rapid.T) c17Case {
 		} else if creates >= 1 {
 			wCreate = 5
 		}
-		k := gen.Pick(rt, "op", wCreate, 26, 24, 15, 5, 3, 5, 13, 10, 3, 4, 3)
+		k := gen.Pick(rt, "op", wCreate, 26, 24, 15, 5, 3, 5, 13, 10, 3, 4, 3, 3)
 		if i == 0 {
 			k = 0
 		}
@@ -245,6 +247,11 @@ func genC17(rt *rapid.T) c17Case {
 			// governance changes the minimum deposit in flight: just above the total of some active tunnel, doubled,
 			// halved, moved to the other denom, or back to the genesis value
 			op = c17Op{K: "minparams", T: gen.Uniform(rt, "tun", 3), Mode: gen.OneOf(rt, "pmode", "above", "above", "double", "half", "swap", "genesis")}
+		case 12:
+			// an operator's migration script damages the exported genesis: the tunnel module account's balance entry is
+			// dropped (or one unit short) while the tunnel module's own section still records the deposits; a node must
+			// refuse to start from it
+			op = c17Op{K: "badimport", Mode: gen.OneOf(rt, "bimode", "zero", "zero", "minus1")}
 		default:
 			op = c17Op{K: "end", Dt: gen.OneOf(rt, "dt", 1, 1, 1, 5, 61)}
 		}
@@ -494,6 +501,7 @@ func runC17(c c17Case) *pbt.Verdict {
 	inapplicable := 0
 	twoDepositors, crossings, crossingsActive := false, 0, 0
 	minChanges := 0
+	badImports := 0
 	updActive, updInactive, updNonCreator := 0, 0, 0
 	sendRefused, sendAccepted := 0, 0
 
@@ -935,6 +943,34 @@ func runC17(c c17Case) *pbt.Verdict {
 			}
 			continue
 		}
+		if o.K == "badimport" {
+			if len(txs) > 0 && !flush(1) {
+				return v
+			}
+			modBal := ch.App.BankKeeper.GetAllBalances(ch.Ctx(), moduleAddr)
+			var recorded amt3
+			for _, t := range tunnels {
+				recorded = add(recorded, t.total())
+			}
+			if modBal.IsZero() || recorded == (amt3{}) {
+				inapplicable++
+				continue
+			}
+			ierr := ch.TryImportMutated(func(state map[string]json.RawMessage) error {
+				return c17DropModuleBalance(state, moduleAddr.String(), o.Mode == "minus1")
+			})
+			switch {
+			case ierr == nil:
+				v.Failf("C17/unbacked-genesis-accepted", "a genesis whose tunnel section records deposits of %v while the tunnel module account holds %s less than that (%s) was imported", recorded, map[bool]string{true: "one unit", false: "everything"}[o.Mode == "minus1"], o.Mode)
+				return v
+			case strings.HasPrefix(ierr.Error(), "harness:"):
+				v.Failf("harness", "badimport: %v", ierr)
+				return v
+			}
+			v.Count("unbacked_genesis_refused", 1)
+			badImports++
+			continue
+		}
 		if o.K == "minparams" {
 			if len(txs) > 0 && !flush(1) {
 				return v
@@ -1264,6 +1300,9 @@ func runC17(c c17Case) *pbt.Verdict {
 	if minChanges > 0 {
 		v.Class("min-deposit-changed-by-governance")
 	}
+	if badImports > 0 {
+		v.Class("unbacked-genesis-import-attempted")
+	}
 	if crossings > 0 {
 		v.Class("withdraw-crosses-min")
 	}
@@ -1305,3 +1344,90 @@ func countCreates(p []pendTx) int {
 }
 
 func TestC17(t *testing.T) { pbt.Check(t, "C17", genC17, runC17) }
+
+// c17DropModuleBalance edits an exported genesis: the bank balance entry of addr is removed (or reduced by one unit of
+// its first denom) and the bank supply is lowered by the same coins, so that the bank section stays self-consistent.
+func c17DropModuleBalance(state map[string]json.RawMessage, addr string, oneUnit bool) error {
+	type coin struct {
+		Denom  string `json:"denom"`
+		Amount string `json:"amount"`
+	}
+	var bank map[string]json.RawMessage
+	if err := json.Unmarshal(state["bank"], &bank); err != nil {
+		return err
+	}
+	var balances []struct {
+		Address string `json:"address"`
+		Coins   []coin `json:"coins"`
+	}
+	if err := json.Unmarshal(bank["balances"], &balances); err != nil {
+		return err
+	}
+	var supply []coin
+	if err := json.Unmarshal(bank["supply"], &supply); err != nil {
+		return err
+	}
+	removed := map[string]*big.Int{}
+	found := false
+	out := balances[:0]
+	for _, b := range balances {
+		if b.Address != addr {
+			out = append(out, b)
+			continue
+		}
+		found = true
+		if oneUnit && len(b.Coins) > 0 {
+			x, ok := new(big.Int).SetString(b.Coins[0].Amount, 10)
+			if !ok || x.Sign() <= 0 {
+				return fmt.Errorf("bad amount %q", b.Coins[0].Amount)
+			}
+			removed[b.Coins[0].Denom] = big.NewInt(1)
+			x.Sub(x, big.NewInt(1))
+			if x.Sign() == 0 {
+				b.Coins = b.Coins[1:]
+			} else {
+				b.Coins[0].Amount = x.String()
+			}
+			if len(b.Coins) > 0 {
+				out = append(out, b)
+			}
+			continue
+		}
+		for _, cn := range b.Coins {
+			x, ok := new(big.Int).SetString(cn.Amount, 10)
+			if !ok {
+				return fmt.Errorf("bad amount %q", cn.Amount)
+			}
+			removed[cn.Denom] = x
+		}
+	}
+	if !found {
+		return fmt.Errorf("no balance entry for %s", addr)
+	}
+	var newSupply []coin
+	for _, cn := range supply {
+		if r, ok := removed[cn.Denom]; ok {
+			x, ok2 := new(big.Int).SetString(cn.Amount, 10)
+			if !ok2 || x.Cmp(r) < 0 {
+				return fmt.Errorf("supply of %s below the removed amount", cn.Denom)
+			}
+			x.Sub(x, r)
+			if x.Sign() == 0 {
+				continue
+			}
+			cn.Amount = x.String()
+		}
+		newSupply = append(newSupply, cn)
+	}
+	var err error
+	if bank["balances"], err = json.Marshal(out); err != nil {
+		return err
+	}
+	if bank["supply"], err = json.Marshal(newSupply); err != nil {
+		return err
+	}
+	if state["bank"], err = json.Marshal(bank); err != nil {
+		return err
+	}
+	return nil
+}
